@@ -70,15 +70,16 @@ Variable lang_update : str -> item -> item -> fmap str -> outcome item.
 Variable flavour : sdk.
 
 Definition EX (t : table) (defs : list (str * str)) : Prop := defs_stable (t_defs t) defs = true.
+Definition UAny (c : ictx) (t : table) (k : item) (e : str) (names : fmap str) (vals : item) : Prop := True.
 
 Theorem XInv_reachable ops cn tn c t :
-  run_env EX lang_match lang_update flavour [] ops ->
+  run_env EX UAny lang_match lang_update flavour [] ops ->
   lookup cn (fst (run lang_match lang_update flavour [] ops)) = Some c ->
   lookup tn (c_tables c) = Some t -> XInv t.
 Proof.
-  apply (P_reachable XInv EX lang_match lang_update flavour).
+  apply (P_reachable XInv EX UAny lang_match lang_update flavour).
   - apply XInv_put.
-  - apply XInv_update.
+  - intros c0 t0 k e cond names vals H _. now apply XInv_update.
   - apply XInv_delete_op.
   - intros t0. apply XInv_clear.
   - intros n ks defs. split; [split; cbn; [apply wf_nil|reflexivity]|]. intros n0 ix [].
